@@ -9,17 +9,30 @@ Open Scope N_scope.
 
 Local Arguments lit : simpl never.
 
-Definition keeps (s s' : shared) : Prop :=
+(* [keeps_nk]: records keep nick, owner and modes, the high-water mark stays; [keeps]: and no KILL
+   mark is set or cleared *)
+Definition keeps_nk (s s' : shared) : Prop :=
   (forall n u', users s' !! n = Some u' ->
      exists u, users s !! n = Some u /\ u_conn u' = u_conn u /\ u_modes u' = u_modes u) /\
   max_users s' = max_users s.
+
+Definition keeps (s s' : shared) : Prop :=
+  (forall n u', users s' !! n = Some u' ->
+     exists u, users s !! n = Some u /\ u_conn u' = u_conn u /\ u_modes u' = u_modes u /\ u_kill u' = u_kill u) /\
+  max_users s' = max_users s.
+
+Lemma keeps_weaken s s' : keeps s s' -> keeps_nk s s'.
+Proof. intros [K M]. split; [|exact M]. intros n u' H. destruct (K n u' H) as [u [A [B [C _]]]]. eauto. Qed.
+
+Lemma keeps_nk_refl s : keeps_nk s s.
+Proof. split; [intros n u H; eauto|reflexivity]. Qed.
 
 Lemma keeps_refl s : keeps s s.
 Proof. split; [intros n u H; eauto|reflexivity]. Qed.
 
 Lemma keeps_trans s1 s2 s3 : keeps s1 s2 -> keeps s2 s3 -> keeps s1 s3.
 Proof.
-  intros [A Am] [B Bm]. split; [|congruence]. intros n u3 H. destruct (B n u3 H) as [u2 [H2 [C2 M2]]]. destruct (A n u2 H2) as [u1 [H1 [C1 M1]]].
+  intros [A Am] [B Bm]. split; [|congruence]. intros n u3 H. destruct (B n u3 H) as [u2 [H2 [C2 [M2 K2]]]]. destruct (A n u2 H2) as [u1 [H1 [C1 [M1 K1]]]].
   exists u1. repeat split; congruence.
 Qed.
 
@@ -28,14 +41,23 @@ Proof. intros E Em. split; [|exact Em]. intros n u H. rewrite E in H. eauto. Qed
 
 Lemma keeps_insert s s' n u u' :
   users s' = <[n := u']> (users s) -> max_users s' = max_users s -> users s !! n = Some u -> u_conn u' = u_conn u -> u_modes u' = u_modes u ->
-  keeps s s'.
+  u_kill u' = u_kill u -> keeps s s'.
+Proof.
+  intros E Em Hu Hc Hm Hk. split; [|exact Em]. intros n0 u0 H. rewrite E in H. destruct (decide (n0 = n)) as [->|Hne].
+  - rewrite lookup_insert in H. injection H as <-. eauto.
+  - rewrite lookup_insert_ne in H by congruence. eauto.
+Qed.
+
+Lemma keeps_nk_insert s s' n u u' :
+  users s' = <[n := u']> (users s) -> max_users s' = max_users s -> users s !! n = Some u -> u_conn u' = u_conn u -> u_modes u' = u_modes u ->
+  keeps_nk s s'.
 Proof.
   intros E Em Hu Hc Hm. split; [|exact Em]. intros n0 u0 H. rewrite E in H. destruct (decide (n0 = n)) as [->|Hne].
   - rewrite lookup_insert in H. injection H as <-. eauto.
   - rewrite lookup_insert_ne in H by congruence. eauto.
 Qed.
 
-Lemma keeps_size s s' : keeps s s' -> (size (users s') <= size (users s))%nat.
+Lemma keeps_size s s' : keeps_nk s s' -> (size (users s') <= size (users s))%nat.
 Proof.
   intros [K _]. rewrite <- (size_dom (D:=gset str) (users s')), <- (size_dom (D:=gset str) (users s)). apply subseteq_size.
   intros n Hn. apply elem_of_dom in Hn as [u' Hu']. destruct (K n u' Hu') as [u [Hu _]]. apply elem_of_dom. eauto.
@@ -59,7 +81,7 @@ Proof.
             | None => Ok s1
             end = Ok s' -> keeps s s') as K.
   { intros s1 E Em. destruct (users s1 !! nick) as [u|] eqn:Hu; intros [= <-].
-    - eapply (keeps_insert s _ nick u); cbn; [now rewrite E|exact Em|now rewrite <- E|destruct u; reflexivity|destruct u; reflexivity].
+    - eapply (keeps_insert s _ nick u); cbn; [now rewrite E|exact Em|now rewrite <- E|destruct u; reflexivity|destruct u; reflexivity|destruct u; reflexivity].
     - now apply keeps_users_eq. }
   destruct (chans s !! ch) as [co|]; cbn [rbind]; [|now apply K].
   destruct (chan_remove_user nick co) as [co'|]; cbn [rbind]; [|discriminate].
@@ -71,15 +93,15 @@ Proof.
   destruct x as [ch [j cr]]. unfold join_insert. destruct (negb j); [intros [= <-]; apply keeps_refl|].
   unfold get_user. destruct (users s !! nick) as [u|] eqn:Hu; cbn [rbind]; [|discriminate].
   destruct cr.
-  - intros [= <-]. eapply (keeps_insert s _ nick u); cbn; [reflexivity|reflexivity|exact Hu|destruct u; reflexivity|destruct u; reflexivity].
+  - intros [= <-]. eapply (keeps_insert s _ nick u); cbn; [reflexivity|reflexivity|exact Hu|destruct u; reflexivity|destruct u; reflexivity|destruct u; reflexivity].
   - unfold get_chan. cbn [chans set_users]. destruct (chans s !! ch); cbn [rbind]; [|discriminate].
-    intros [= <-]. eapply (keeps_insert s _ nick u); cbn; [reflexivity|reflexivity|exact Hu|destruct u; reflexivity|destruct u; reflexivity].
+    intros [= <-]. eapply (keeps_insert s _ nick u); cbn; [reflexivity|reflexivity|exact Hu|destruct u; reflexivity|destruct u; reflexivity|destruct u; reflexivity].
 Qed.
 
 Section frame.
 Context (cfg : config) (verify : str -> str -> bool) (i : nat).
 
-Ltac same H := injection H as <-; cbn [h_sh]; apply keeps_refl.
+Ltac same H := injection H as <-; cbn [h_sh]; first [apply keeps_refl|apply keeps_nk_refl].
 
 Lemma join_keeps s c chs keys r : process_join cfg i s c chs keys = Ok r -> keeps s (h_sh r).
 Proof.
@@ -134,7 +156,7 @@ Proof.
   destruct (ch_users co !! nick) as [rk|]; [|intros H; same H].
   destruct (_ && _); [intros H; same H|]. destruct (bool_decide _); [intros H; same H|].
   destruct (users s !! nickname) as [inv|] eqn:Hu; [|intros H; same H].
-  intros [= <-]. cbn [h_sh]. eapply (keeps_insert s _ nickname inv); cbn; [reflexivity|reflexivity|exact Hu|destruct inv; reflexivity|destruct inv; reflexivity].
+  intros [= <-]. cbn [h_sh]. eapply (keeps_insert s _ nickname inv); cbn; [reflexivity|reflexivity|exact Hu|destruct inv; reflexivity|destruct inv; reflexivity|destruct inv; reflexivity].
 Qed.
 
 Lemma mode_channel_keeps s c target nick co rk modes r :
@@ -146,17 +168,17 @@ Proof.
   intros [= <-]. cbn [h_sh]. now apply keeps_users_eq.
 Qed.
 
-Lemma kill_keeps s c nickname comment r : process_kill cfg i s c nickname comment = Ok r -> keeps s (h_sh r).
+Lemma kill_keeps s c nickname comment r : process_kill cfg i s c nickname comment = Ok r -> keeps_nk s (h_sh r).
 Proof.
   unfold process_kill. destruct (own_nick c) as [nick|]; cbn [rbind]; [|discriminate].
   destruct (get_user s nick) as [u|]; cbn [rbind]; [|discriminate].
   destruct (um_oper (u_modes u)); [|intros H; same H].
   destruct (users s !! nickname) as [v|] eqn:Hv; [|intros H; same H].
   destruct (u_kill v); [intros H; same H|].
-  intros [= <-]. cbn [h_sh]. eapply (keeps_insert s _ nickname v); cbn; [reflexivity|reflexivity|exact Hv|destruct v; reflexivity|destruct v; reflexivity].
+  intros [= <-]. cbn [h_sh]. eapply (keeps_nk_insert s _ nickname v); cbn; [reflexivity|reflexivity|exact Hv|destruct v; reflexivity|destruct v; reflexivity].
 Qed.
 
-Lemma die_keeps s c message r : process_die cfg i s c message = Ok r -> keeps s (h_sh r).
+Lemma die_keeps s c message r : process_die cfg i s c message = Ok r -> keeps_nk s (h_sh r).
 Proof.
   unfold process_die. destruct (own_nick c) as [nick|]; cbn [rbind]; [|discriminate].
   destruct (get_user s nick) as [u|]; cbn [rbind]; [|discriminate].
@@ -170,7 +192,7 @@ Lemma away_keeps s c text r : process_away cfg i s c text = Ok r -> keeps s (h_s
 Proof.
   unfold process_away. destruct (own_nick c) as [nick|]; cbn [rbind]; [|discriminate].
   unfold get_user. destruct (users s !! nick) as [u|] eqn:Hu; cbn [rbind]; [|discriminate].
-  intros [= <-]. cbn [h_sh]. eapply (keeps_insert s _ nick u); cbn; [reflexivity|reflexivity|exact Hu|destruct u; reflexivity|destruct u; reflexivity].
+  intros [= <-]. cbn [h_sh]. eapply (keeps_insert s _ nick u); cbn; [reflexivity|reflexivity|exact Hu|destruct u; reflexivity|destruct u; reflexivity|destruct u; reflexivity].
 Qed.
 
 End frame.
@@ -184,7 +206,7 @@ Definition no_new_local_oper (s s' : shared) : Prop :=
   forall n u', users s' !! n = Some u' -> um_local_oper (u_modes u') = true ->
     exists n0 u, users s !! n0 = Some u /\ u_conn u = u_conn u' /\ um_local_oper (u_modes u) = true.
 
-Lemma keeps_no_new s s' : keeps s s' -> no_new_oper s s' /\ no_new_local_oper s s'.
+Lemma keeps_no_new s s' : keeps_nk s s' -> no_new_oper s s' /\ no_new_local_oper s s'.
 Proof.
   intros [K _]. split; intros n u' Hu Ho; destruct (K n u' Hu) as [u [H [Hc Hm]]]; exists n, u; rewrite <- Hm; auto.
 Qed.
@@ -212,25 +234,25 @@ Theorem dispatch_no_new_oper s c cmd msg r :
 Proof.
   intros I C A H Hno.
   assert (forall r0, same_result s c r0 -> no_new_oper s (h_sh r0) /\ no_new_local_oper s (h_sh r0)) as Same.
-  { intros r0 [E _]. rewrite E. apply keeps_no_new, keeps_refl. }
+  { intros r0 [E _]. rewrite E. apply keeps_no_new, keeps_nk_refl. }
   assert (forall (P : res hres), (exists r0, P = Ok r0 /\ same_result s c r0) -> P = Ok r -> no_new_oper s (h_sh r) /\ no_new_local_oper s (h_sh r)) as S2.
   { intros P [r0 [-> Hs]] [= <-]. now apply Same. }
   assert (forall o, Ok {| h_sh := s; h_conn := c; h_out := o; h_quit := false |} = Ok r -> no_new_oper s (h_sh r) /\ no_new_local_oper s (h_sh r)) as S3.
-  { intros o [= <-]. apply keeps_no_new, keeps_refl. }
+  { intros o [= <-]. apply keeps_no_new, keeps_nk_refl. }
   destruct (own_user i s c C A) as [nick [u [Hn [Hu [Hc [Ho Hg]]]]]].
   destruct cmd; cbn [dispatch] in H.
   - (* CAP *) unfold process_cap in H. destruct sub.
-    + injection H as <-. apply keeps_no_new, keeps_refl.
-    + injection H as <-. apply keeps_no_new, keeps_refl.
-    + destruct caps as [cs|]; [destruct (forallb _ cs)|]; injection H as <-; apply keeps_no_new, keeps_refl.
-    + rewrite A in H. injection H as <-. apply keeps_no_new, keeps_refl.
-  - injection H as <-. apply keeps_no_new, keeps_refl.
-  - unfold process_pass in H. rewrite A in H. injection H as <-. apply keeps_no_new, keeps_refl.
+    + injection H as <-. apply keeps_no_new, keeps_nk_refl.
+    + injection H as <-. apply keeps_no_new, keeps_nk_refl.
+    + destruct caps as [cs|]; [destruct (forallb _ cs)|]; injection H as <-; apply keeps_no_new, keeps_nk_refl.
+    + rewrite A in H. injection H as <-. apply keeps_no_new, keeps_nk_refl.
+  - injection H as <-. apply keeps_no_new, keeps_nk_refl.
+  - unfold process_pass in H. rewrite A in H. injection H as <-. apply keeps_no_new, keeps_nk_refl.
   - (* NICK: the record is re-keyed with its modes *)
     destruct (decide (nickname = nick)) as [->|Hne].
-    { rewrite (process_nick_same cfg verify i s c msg nick A Hn) in H. injection H as <-. apply keeps_no_new, keeps_refl. }
+    { rewrite (process_nick_same cfg verify i s c msg nick A Hn) in H. injection H as <-. apply keeps_no_new, keeps_nk_refl. }
     destruct (users s !! nickname) as [x|] eqn:Hx.
-    { rewrite (process_nick_refused cfg verify i s c nickname msg nick x A Hn Hne Hx) in H. injection H as <-. apply keeps_no_new, keeps_refl. }
+    { rewrite (process_nick_refused cfg verify i s c nickname msg nick x A Hn Hne Hx) in H. injection H as <-. apply keeps_no_new, keeps_nk_refl. }
     destruct (process_nick_effect cfg verify i s c nickname msg nick u I A Hn Hu Hne Hx) as [r0 [Hr [_ [_ [Hus _]]]]].
     rewrite Hr in H. injection H as <-.
     assert (forall n u', users (h_sh r0) !! n = Some u' ->
@@ -240,18 +262,18 @@ Proof.
       - rewrite lookup_insert_ne in Hu' by congruence. destruct (decide (n = nick)) as [->|N2]; [now rewrite lookup_delete in Hu'|].
         rewrite lookup_delete_ne in Hu' by congruence. eauto. }
     split; intros n u' Hu' Hf; destruct (K n u' Hu') as [n0 [u0 [H0 [C0 M0]]]]; exists n0, u0; rewrite M0; auto.
-  - unfold process_user in H. rewrite A in H. injection H as <-. apply keeps_no_new, keeps_refl.
-  - injection H as <-. apply keeps_no_new, keeps_refl.
-  - injection H as <-. apply keeps_no_new, keeps_refl.
+  - unfold process_user in H. rewrite A in H. injection H as <-. apply keeps_no_new, keeps_nk_refl.
+  - injection H as <-. apply keeps_no_new, keeps_nk_refl.
+  - injection H as <-. apply keeps_no_new, keeps_nk_refl.
   - exfalso. eapply Hno. reflexivity.
-  - (* QUIT *) injection H as <-. apply keeps_no_new, keeps_refl.
-  - apply keeps_no_new. eapply join_keeps; eauto.
-  - apply keeps_no_new. eapply part_keeps; eauto.
-  - apply keeps_no_new. eapply topic_keeps; eauto.
+  - (* QUIT *) injection H as <-. apply keeps_no_new, keeps_nk_refl.
+  - apply keeps_no_new, keeps_weaken. eapply join_keeps; eauto.
+  - apply keeps_no_new, keeps_weaken. eapply part_keeps; eauto.
+  - apply keeps_no_new, keeps_weaken. eapply topic_keeps; eauto.
   - eapply S2; [|exact H]. now apply process_names_ok.
   - unfold process_list in H. destruct server; eapply S3; exact H.
-  - apply keeps_no_new. eapply invite_keeps; eauto.
-  - apply keeps_no_new. eapply kick_keeps; eauto.
+  - apply keeps_no_new, keeps_weaken. eapply invite_keeps; eauto.
+  - apply keeps_no_new, keeps_weaken. eapply kick_keeps; eauto.
   - unfold process_motd in H. destruct target; eapply S3; exact H.
   - unfold process_version in H. destruct target; eapply S3; exact H.
   - unfold process_admin in H. destruct target; eapply S3; exact H.
@@ -267,7 +289,7 @@ Proof.
     unfold process_mode in H. rewrite Ho in H. cbn [rbind] in H. destruct (validate_channel target).
     + destruct (chans s !! target) as [co|]; [|eapply S3; exact H].
       destruct (ch_users co !! nick) as [rk|]; [|eapply S3; exact H].
-      apply keeps_no_new. eapply mode_channel_keeps; eauto.
+      apply keeps_no_new, keeps_weaken. eapply mode_channel_keeps; eauto.
     + destruct (bool_decide (nick = target)).
       * destruct (mode_user_no_grant cfg i s c nick modes r u Hu H) as [m' [Hus [_ [[G1 G2] _]]]].
         split; intros n u' Hu' Hf; rewrite Hus in Hu'; (destruct (decide (n = nick)) as [->|N1];
@@ -283,7 +305,7 @@ Proof.
   - eapply S3; exact H.
   - eapply S3; exact H.
   - unfold process_squit in H. destruct (bool_decide _); [apply keeps_no_new; eapply die_keeps; eauto|eapply S3; exact H].
-  - apply keeps_no_new. eapply away_keeps; eauto.
+  - apply keeps_no_new, keeps_weaken. eapply away_keeps; eauto.
   - eapply S3; exact H.
   - eapply S2; [|exact H]. now apply process_wallops_ok.
   - eapply S3; exact H.
